@@ -57,6 +57,7 @@ register("EBR-QUEUE", rules_ebr.rule_queue)
 register("EBR-QUEUE-DROP", rules_ebr.rule_queue_drop)
 register("REC-DEPTH-GUARD", rules_rec.rule_depth_guard)
 register("REC-IMMEDIATE", rules_rec.rule_immediate)
+register("REC-COLLECT-REENTRY", rules_rec.rule_collect_reentry)
 
 SCHED = "the schedule-quantified statement itself (that these necessary ordering/gating conditions compose under every interleaving is a model-checking question outside this family)"
 
@@ -74,7 +75,7 @@ prop("C06", "other",
      ["REC-IMMEDIATE", "CW-CASCADE-DECISION", "CW-ZERO-DEFERS"],
      ["the numeric bound on epoch advances for every shape and epoch alignment (a runtime quantity)"], assumptions=TRUST)
 prop("C07", "other",
-     ["REC-DEPTH-GUARD"],
+     ["REC-DEPTH-GUARD", "REC-COLLECT-REENTRY"],
      ["absence of overflow for a given stack size: frame size depends on T, codegen and the user's Drop/pop_edges"],
      assumptions=TRUST)
 prop("C08", "other",
